@@ -3,7 +3,7 @@ from pw_verif.props._machine import run_program_case, worker_init  # noqa: F401
 
 PROP = "C20"
 LEVEL = "exploration"
-BUDGET = {"quick": 480, "thorough": 6000}
+BUDGET = {"quick": 640, "thorough": 6000}
 MIN_PER_SHARD = 10
 ALL_KINDS = ["op", "op", "comp", "comp", "struct", "struct", "kraus", "measure", "measure", "povm", "resize", "trace_out", "bigop", "set_contraction"]
 
